@@ -35,6 +35,9 @@ KINDS = [
     ("W_TOUCH", r"<dyn FullCache as FullCache>::touch$"),
     ("W_TEMPDIR", r"<dyn FullCache as FullCache>::temp_dir$"),
     ("R_GET", r"ReadOnlyCache::get(::<.*>)?$"),
+    ("R_TOUCH", r"ReadOnlyCache::touch(::<.*>)?$"),
+    ("SYNCPATH", r"stack::Cache::maybe_sync_path$"),
+    ("ERRNEW", r"io::Error::new(::<.*>)?$"),
     ("JUDGE", r"FnOnce\(CacheHit.*call_once$"),
     ("POPULATE", r"FnOnce\(&mut File, Option<File>\).*call_once$"),
     ("CHECK", r"Fn\(&'a mut File, &'b mut File\).*as Fn<.*>>::call$"),
@@ -71,6 +74,7 @@ class Run:
     def __init__(self, funcs, inline, extra_models=None):
         self.log = []
         self.drops = []
+        self.panics = []
         self.ex = mir.Executor(funcs, inline=inline, models=dict({
             r"as Try>::branch$": sp.m_try_branch,
             r"as FromResidual<.*>>::from_residual$": sp.m_from_residual,
@@ -85,11 +89,15 @@ class Run:
             r"as Deref>::deref$": self.m_identity,
             r"as Into<.*>>::into$": self.m_identity,
             r"NamedTempFile::as_file(_mut)?$": self.m_as_file,
+            r"^Result::<.*>::expect$": self.m_expect,
+            r"^Option::<.*>::expect$": self.m_expect_opt,
+            r"^Result::<.*>::is_ok$": self.m_is_ok,
         }, **(extra_models or {})))
         self.ex.try_info = {}
         self.ex.max_steps = 600000
         self.ex.max_depth = 8
         self.ex.default_model = self.default_model
+        self.ex.opaque_fields = True
         self.ex.on_drop = self.on_drop
         self.funcs = funcs
 
@@ -116,6 +124,30 @@ class Run:
     # ---- models -------------------------------------------------------------------------------
     def m_identity(self, ex, args, pc):
         return [([], args[0])]
+
+    def m_expect(self, ex, args, pc):
+        v = args[0]
+        if v[0] != "adt":
+            raise mir.MirError("expect on a non-adt")
+        if v[2] == 1:
+            self.panics.append(dict(pc=ex.abs_pc(pc), what="expect on Err"))
+            return []   # diverges (panic)
+        return [([], v[3][0])]
+
+    def m_expect_opt(self, ex, args, pc):
+        v = args[0]
+        if v[0] != "adt":
+            raise mir.MirError("expect on a non-adt")
+        if v[2] == 0:
+            self.panics.append(dict(pc=ex.abs_pc(pc), what="expect on None"))
+            return []
+        return [([], v[3][0])]
+
+    def m_is_ok(self, ex, args, pc):
+        v = ex.project(args[0], ("deref",)) if args[0][0] == "ref" else args[0]
+        if v[0] != "adt":
+            raise mir.MirError("is_ok of a non-adt")
+        return [([], ("bool", "true" if v[2] == 0 else "false"))]
 
     def m_as_file(self, ex, args, pc):
         # the File inside a NamedTempFile: identity derived from the temp file's
@@ -760,6 +792,219 @@ def native_finalize_errors(scratch):
     return _first_reproduced([sc.o_flush_failed_published(mk_scen(6, w=None, r=None), nat, ""),
                               sc.o_flush_failed_published(mk_scen(3, w=None, r=None, action=1), nat, "")])
 
+
+# ---- the other entry points: get, touch, set, put, set_temp_file, put_temp_file ---------------------------------
+def _stack_fn(funcs, suffix):
+    hits = [k for k in funcs if re.search(r"^stack::<impl .*>::" + re.escape(suffix) + "$", k)]
+    if len(hits) != 1:
+        raise mir.MirError("stack::Cache::%s not found uniquely in the MIR dump (%r)" % (suffix, hits))
+    return hits[0]
+
+
+def stack_ops_glue(funcs, text):
+    viol = {}
+    decls = []
+    fnames = []
+    counts = {}
+
+    def bad(rule, pc, msg):
+        viol.setdefault(rule, []).append((pc, msg))
+
+    inline = lambda n: bool(re.search(r"(set_impl|put_impl|maybe_sync_path)$", n))  # noqa: E731
+    wsv = lambda ws: ("adt", "Option", 1, {0: ("opaque", "WRITE_CACHE", "dyn FullCache")}) if ws else ("adt", "Option", 0, {})  # noqa: E731
+    ckv = lambda ck: ("adt", "Option", 1, {0: ("opaque", "CHECKER", "Arc<dyn Fn>")}) if ck else ("adt", "Option", 0, {})  # noqa: E731
+
+    # ---- get ----------------------------------------------------------------------------------------------
+    name = _stack_fn(funcs, "get::doit")
+    fnames.append(name)
+    for ws in (True, False):
+        for ck in (True, False):
+            run = Run(funcs, inline=inline)
+            res = run.ex.run(name, [wsv(ws), ckv(ck), ("ref", [("opaque", "READ_SIDE", "ReadOnlyCache")]), ("opaque", "KEY", "Key")])
+            decls += run.ex.decls
+            for p in run.paths(res):
+                counts["get"] = counts.get("get", 0) + 1
+                evs = p["events"]
+                kinds = [e["kind"] for (e, _o) in evs]
+                ok = p["rid"][1] == 0
+                ret = p["rid"][2][0] if p["rid"][2] else None
+                for (e, o) in evs:
+                    if o["label"] == "err":
+                        if ok or ret != o["id"]:
+                            bad("errors", p["pc"], "get: %s failed and the error is not returned" % e["kind"])
+                        break
+                if not ok:
+                    continue
+                wg = _all(evs, "W_GET")
+                rg = _all(evs, "R_GET")
+                ch = _all(evs, "CHECK")
+                if not ws and wg:
+                    bad("order", p["pc"], "get: a write-cache lookup without a write cache")
+                if ws and (not wg or (rg and rg[0] < wg[0])):
+                    bad("order", p["pc"], "get: the write cache is not consulted first")
+                hit = evs[wg[0]][1]["id"] if (ws and wg and evs[wg[0]][1]["label"] == "ok-some") else None
+                if hit is not None:
+                    if ret != ("Option", 1, (hit,)):
+                        bad("order", p["pc"], "get: a write-cache hit is not what is returned")
+                    if not ck and (rg or ch):
+                        bad("checker-off", p["pc"], "get: later copies are consulted although no checker is configured")
+                    if ck:
+                        if not rg:
+                            bad("checker", p["pc"], "get: a write-cache hit is not compared with the read-only copies")
+                        elif evs[rg[0]][1]["label"] == "ok-some":
+                            other = evs[rg[0]][1]["id"]
+                            if not any(hit in list(_flat(evs[i][0]["args"])) and other in list(_flat(evs[i][0]["args"])) for i in ch):
+                                bad("checker", p["pc"], "get: a write-cache hit is not compared with the read-only copy found")
+                            sk = [i for i in _all(evs, "SEEK") if evs[i][1]["label"] == "ok" and hit in list(_flat(evs[i][0]["args"])) and "Start" in list(_flat(evs[i][0]["args"]))]
+                            if ch and not any(i > ch[-1] for i in sk):
+                                bad("rewind", p["pc"], "get: the returned handle is not rewound after the checker consumed it")
+                else:
+                    if not rg:
+                        bad("order", p["pc"], "get: the read-only caches are not consulted after a write-cache miss")
+                    else:
+                        o = evs[rg[-1]][1]
+                        want = ("Option", 1, (o["id"],)) if o["label"] == "ok-some" else ("Option", 0, ())
+                        if ret != want:
+                            bad("order", p["pc"], "get: the read-only stack's answer is not what is returned after a write-cache miss")
+    # ---- touch --------------------------------------------------------------------------------------------
+    name = _stack_fn(funcs, "touch::doit")
+    fnames.append(name)
+    for ws in (True, False):
+        run = Run(funcs, inline=inline)
+        res = run.ex.run(name, [wsv(ws), ("ref", [("opaque", "READ_SIDE", "ReadOnlyCache")]), ("opaque", "KEY", "Key")])
+        decls += run.ex.decls
+        for p in run.paths(res):
+            counts["touch"] = counts.get("touch", 0) + 1
+            evs = p["events"]
+            ok = p["rid"][1] == 0
+            ret = p["rid"][2][0] if p["rid"][2] else None
+            for (e, o) in evs:
+                if o["label"] == "err":
+                    if ok or ret != o["id"]:
+                        bad("errors", p["pc"], "touch: %s failed and the error is not returned" % e["kind"])
+                    break
+            if not ok:
+                continue
+            wt = _all(evs, "W_TOUCH")
+            rt = _all(evs, "R_TOUCH")
+            if ws and (not wt or (rt and rt[0] < wt[0])):
+                bad("order", p["pc"], "touch: the write cache is not consulted first")
+            if not ws and wt:
+                bad("order", p["pc"], "touch: a write-cache call without a write cache")
+            found_w = ws and wt and evs[wt[0]][1]["id"] not in (None,) and evs[wt[0]][1]["label"] == "ok" and False
+            # the write cache's answer is a bool payload: identity of the value returned
+            if ws and wt and not rt:
+                if ret not in ("true", evs[wt[0]][1]["id"]):
+                    bad("order", p["pc"], "touch: the write cache's answer is not what is returned")
+            elif rt:
+                if ret != evs[rt[-1]][1]["id"]:
+                    bad("order", p["pc"], "touch: the read-only stack's answer is not what is returned")
+            else:
+                bad("order", p["pc"], "touch: no level is consulted")
+            _ = found_w
+    # ---- set / put / set_temp_file / put_temp_file ------------------------------------------------------------
+    for op, pub, temp in (("set::doit", "W_SET", False), ("put::doit", "W_PUT", False), ("set_temp_file::doit", "W_SET", True), ("put_temp_file::doit", "W_PUT", True)):
+        name = _stack_fn(funcs, op)
+        fnames.append(name)
+        for ws in (True, False):
+            for sync in (True, False):
+                run = Run(funcs, inline=inline)
+                f = funcs[name]
+                cache, roles = _cache_value(funcs[_stack_fn(funcs, "set_impl")], ws, False)
+                # the same Cache layout is used by every method: complete it with the auto_sync flag
+                cv = cache[1][0]
+                merged = dict(cv[3])
+                c2, r2 = _cache_value(funcs[_stack_fn(funcs, "maybe_sync_path")], ws, False)
+                for i, v in c2[1][0][3].items():
+                    merged.setdefault(i, v)
+                for i, v in list(merged.items()):
+                    if v == ("bool", "AUTOSYNC"):
+                        merged[i] = ("bool", "true" if sync else "false")
+                cache = ("ref", [("adt", "Cache", 0, merged)])
+                third = ("opaque", "TMP", "NamedTempFile") if temp else ("ref", [("opaque", "SRC", "Path")])
+                res = run.ex.run(name, [cache, ("opaque", "KEY", "Key"), third])
+                decls += run.ex.decls
+                for p in run.paths(res):
+                    counts[op] = counts.get(op, 0) + 1
+                    evs = p["events"]
+                    kinds = [e["kind"] for (e, _o) in evs]
+                    ok = p["rid"][1] == 0
+                    ret = p["rid"][2][0] if p["rid"][2] else None
+                    for (e, o) in evs:
+                        if o["label"] == "err":
+                            if ok or ret != o["id"]:
+                                bad("errors", p["pc"], "%s: %s failed and the error is not returned" % (op, e["kind"]))
+                            break
+                    pubs = [i for i, k in enumerate(kinds) if k in ("W_SET", "W_PUT")]
+                    if not ws:
+                        if ok:
+                            bad("unsupported", p["pc"], "%s: succeeds without a write cache" % op)
+                        if pubs:
+                            bad("unsupported", p["pc"], "%s: publishes without a write cache" % op)
+                        if not ok and "ERRNEW" in kinds and ret not in [o["id"] for (e, o) in evs if e["kind"] == "ERRNEW"]:
+                            bad("unsupported", p["pc"], "%s: the Unsupported error is not what is returned" % op)
+                    if ok and ws:
+                        if [kinds[i] for i in pubs] != [pub]:
+                            bad("publish", p["pc"], "%s: does not publish with exactly one %s" % (op, pub))
+                    if pubs:
+                        first = pubs[0]
+                        if temp:
+                            fin = [i for i, k in enumerate(kinds) if k == "FINALIZE"]
+                            if not fin or fin[0] > first or evs[fin[0]][1]["label"] != "ok":
+                                bad("flush", p["pc"], "%s: publishes a temp file that was not finalized (mode, flush, close) first" % op)
+                            elif evs[fin[0]][1]["id"] not in list(_flat(evs[first][0]["args"])):
+                                bad("flush", p["pc"], "%s: publishes something other than the finalized temp file" % op)
+                        elif sync:
+                            sy = [i for i, k in enumerate(kinds) if k == "SYNC"]
+                            opn = [i for i, k in enumerate(kinds) if k == "OPEN"]
+                            if not sy or sy[0] > first or not opn or "SRC" not in list(_flat(evs[opn[0]][0]["args"])):
+                                bad("flush", p["pc"], "%s: auto_sync: the file is not opened and flushed before it is published" % op)
+                        elif "SYNC" in kinds:
+                            bad("flush", p["pc"], "%s: flushes although syncing is off" % op)
+                    if temp:
+                        fin = [(e, o) for (e, o) in evs if e["kind"] == "FINALIZE" and o["label"] == "ok"]
+                        dropped = set(d["id"] for d in p["drops"] if isinstance(d["id"], str))
+                        for (e, o) in fin:
+                            if o["id"] not in dropped:
+                                bad("temp", p["pc"], "%s: the finalized temporary path is not dropped (deleted) on this path" % op)
+    texts = {
+        "order": ("C13", "get/touch consult the write cache first, then the read-only stack, and return the first answer"),
+        "checker": ("C14", "get: with a checker a write-cache hit is compared with the read-only copy found"),
+        "checker-off": ("C14", "get: without a checker later copies are not consulted"),
+        "rewind": ("C19", "get: the returned handle is rewound after the checker consumed it"),
+        "errors": ("C18", "get/touch/set/put/set_temp_file/put_temp_file return the error of the first failing callee"),
+        "unsupported": ("C13", "writes fail as unsupported, and publish nothing, without a write cache"),
+        "publish": ("C13", "set / set_temp_file publish through set, put / put_temp_file through put, exactly once"),
+        "flush": ("C03", "with auto_sync the file is flushed (temp files: finalized) before it is handed to the write cache; not flushed when off"),
+        "temp": ("C18", "set_temp_file / put_temp_file drop (delete) the temporary path on every path"),
+    }
+    obs = []
+    for rule, (tags, t) in texts.items():
+        vs = viol.get(rule, [])
+        goal = "true" if not vs else "(not (or %s))" % " ".join("(and true %s)" % " ".join(pc) for (pc, _m) in vs[:40])
+        obs.append(Obligation("%s: %s" % (tags, t), decls, [], goal, fnames, note=("; ".join(sorted(set(m for (_pc, m) in vs))[:3]) or "no explored path violates the rule"),
+                              native_py=NATIVE_OPS.get(rule)))
+    obs.append(Obligation("witness: paths explored for every entry point", [], [], "false" if len(counts) == 6 else "true", fnames, expect="sat",
+                          note=", ".join("%s: %d" % kv for kv in sorted(counts.items()))))
+    return obs, dict(models=["every callee uninterpreted; set_impl / put_impl / maybe_sync_path inlined"], inlined=fnames)
+
+
+def native_ops_checker(scratch):
+    nat, sc = _native(scratch)
+    return _first_reproduced([sc.o_checker_bypassed(mk_scen(0, w=50, r=60, checker=1), nat, "")])
+
+
+def native_ops_rewind(scratch):
+    nat, sc = _native(scratch)
+    return _first_reproduced([sc.o_offset_zero(mk_scen(0, w=50, r=50, checker=1), nat, ""), sc.o_offset_zero(mk_scen(0, w=None, r=50, checker=1), nat, "")])
+
+
+def native_ops_flush(scratch):
+    nat, sc = _native(scratch)
+    return _first_reproduced([sc.o_flush_failed_published(mk_scen(6, w=None, r=None), nat, ""), sc.o_flush_failed_published(mk_scen(7, w=None, r=None), nat, "")])
+
+
+NATIVE_OPS = {"checker": native_ops_checker, "rewind": native_ops_rewind, "flush": native_ops_flush}
 
 NATIVE = {"actions": native_actions, "ensure": native_actions, "checker": native_checker, "checker-off": None, "rewind": native_rewind,
           "errors": native_errors, "temp": native_temp, "order": native_actions, "classify": native_actions,
